@@ -360,24 +360,26 @@ def rxFrame (n : Node) (f : Frame) : Node :=
           else if h.2.1 = TP_DT then handleData n h.2.2.1 h.2.2.2 f.len buf
           else handleOther n h.1 h.2.1 h.2.2.1 h.2.2.2 f.len buf)
 
-def rxLoop : Nat → Node → Node
-  | 0, n => n
-  | k+1, n =>
-    match n.rxq with
-    | [] => n
-    | f :: t => rxLoop k (rxFrame { n with rxq := t } f)
+/-- the frames one `ParseMessages` reads: at most 20, in order (handling a frame never touches the driver's queue) -/
+def rxList (fs : List Frame) (n : Node) : Node := fs.foldl rxFrame n
 
 /-- `SendPendingInformation` (only the transport part can be pending) -/
 def pendingAll (n : Node) : Node :=
   (List.range n.s.devs.length).foldl (fun n i => if (n.tp i).hasPending then pendingTP n i else n) n
 
+/-- `SendFrames()` at the start of `ParseMessages` -/
+def flush (n : Node) : Node :=
+  let fl := sendFrames n.s.ring n.s.drv
+  { n with s := { n.s with ring := fl.1, drv := fl.2.1 } }
+
+/-- `SendHeartbeat()` with the heartbeat disabled: only `IsAddressClaimStarted` is evaluated for every device -/
+def claimTick (n : Node) : Node :=
+  { n with s := { n.s with devs := if n.s.claimMode then n.s.devs.map (fun d => (isAddressClaimStarted n.s.flavor n.s.now d).1)
+                                   else n.s.devs } }
+
 /-- `ParseMessages()` on an open node with the heartbeat disabled: at most 20 frames are read -/
 def poll (n : Node) : Node :=
-  let fl := sendFrames n.s.ring n.s.drv
-  let n1 := { n with s := { n.s with ring := fl.1, drv := fl.2.1 } }
-  let n3 := rxLoop 20 (pendingAll n1)
-  let devs := if n3.s.claimMode then n3.s.devs.map (fun d => (isAddressClaimStarted n3.s.flavor n3.s.now d).1) else n3.s.devs
-  { n3 with s := { n3.s with devs := devs } }
+  claimTick { (rxList (n.rxq.take 20) (pendingAll (flush n))) with rxq := n.rxq.drop 20 }
 
 /-- `SendMsg(N2kMsg, DeviceIndex)` including the ISO-TP branch -/
 def sendMsgTP (n : Node) (m : Msg) (dev : Option Nat) : Node × Bool :=
